@@ -1,0 +1,41 @@
+//go:build verif
+
+// Contracts for deductive verification (read as text by /verif/engine; this
+// file is never compiled into the package: it is comment-only and guarded
+// by the build tag verif).
+
+package pypi
+
+// ---------------------------------------------------------------------------
+// C16 (partial): a marker comparison without version operands evaluates by the
+// PEP 508 operator table on strings, and `extra` tests membership in the
+// requested extras.
+
+//@ lemma markerExpr.Eval.strings
+//@   vars me markerExpr; extras map[string]bool
+//@   unfold markerExpr.Eval
+//@   requires me.left.name != "extra" && me.right.name != "extra" && me.constraint == nil
+//@   ensures imp(me.op == markerOpLessEqual, me.Eval(extras) == (me.left.value <= me.right.value))
+//@   ensures imp(me.op == markerOpLess, me.Eval(extras) == (me.left.value < me.right.value))
+//@   ensures imp(me.op == markerOpNotEqual, me.Eval(extras) == (me.left.value != me.right.value))
+//@   ensures imp(me.op == markerOpEqualEqual || me.op == markerOpEqualEqualEqual, me.Eval(extras) == (me.left.value == me.right.value))
+//@   ensures imp(me.op == markerOpGreaterEqual, me.Eval(extras) == (me.left.value >= me.right.value))
+//@   ensures imp(me.op == markerOpGreater, me.Eval(extras) == (me.left.value > me.right.value))
+//@   ensures imp(me.op == markerOpIn, me.Eval(extras) == strcontains(me.right.value, me.left.value))
+//@   ensures imp(me.op == markerOpNotIn, me.Eval(extras) == !strcontains(me.right.value, me.left.value))
+//@   property C16
+
+//@ lemma markerExpr.Eval.extra
+//@   vars me markerExpr; extras map[string]bool
+//@   unfold markerExpr.Eval
+//@   ensures imp(me.left.name == "extra", me.Eval(extras) == (has(extras, me.right.value) && extras[me.right.value]))
+//@   ensures imp(me.left.name != "extra" && me.right.name == "extra", me.Eval(extras) == (has(extras, me.left.value) && extras[me.left.value]))
+//@   property C16
+
+//@ opaque ::semver.(*Constraint).MatchVersion
+//@ lemma markerExpr.Eval.version
+//@   vars me markerExpr; extras map[string]bool
+//@   unfold markerExpr.Eval
+//@   requires me.left.name != "extra" && me.right.name != "extra" && me.constraint != nil
+//@   ensures me.Eval(extras) == me.constraint.MatchVersion(me.left.version)
+//@   property C16
